@@ -2,7 +2,7 @@
 # development tool: run every quick check under several seeds, report non-zero exits
 cd "$(dirname "$0")/.."
 for sd in "$@"; do
-  for id in C01 C02 C03 C04 C05 C07 C08 C09 C10 C11 C12 C13 C14 C15 C16 C17 C18 C19 C20 EXTRA; do
+  for id in C01 C02 C03 C04 C05 C06 C07 C08 C09 C10 C11 C12 C13 C14 C15 C16 C17 C18 C19 C20 EXTRA; do
     t0=$(date +%s)
     VERIF_SEED=$sd ./check $id > /tmp/smoke-$sd-$id.log 2>&1
     rc=$?
